@@ -17,6 +17,10 @@ use sle::vm::value::{RuntimeBoxedVal, RSVD};
 enum Tk {
     MapKeyCaller7,
     MapKeyCdl8,
+    /// keccak(bytes32("eternal.storage.balance.of") ++ caller): a namespaced key whose preimage is only partly constant
+    NamespacedKeyCaller,
+    /// keccak(calldataload(0) ++ bytes32("eternal.storage.balance.of")): a mapping at a text-like slot constant
+    NamespacedKeyCdl,
     ArrKey7Add,
     PushHash7,
     Mask,
@@ -58,6 +62,8 @@ fn alphabet() -> Vec<Tk> {
     vec![
         Tk::MapKeyCaller7,
         Tk::MapKeyCdl8,
+        Tk::NamespacedKeyCaller,
+        Tk::NamespacedKeyCdl,
         Tk::ArrKey7Add,
         Tk::PushHash7,
         Tk::Mask,
@@ -91,7 +97,7 @@ fn alphabet() -> Vec<Tk> {
 
 fn arity(t: Tk) -> (usize, usize) {
     match t {
-        Tk::MapKeyCaller7 | Tk::MapKeyCdl8 | Tk::PushHash7 | Tk::CallValue | Tk::Sload1 => (0, 1),
+        Tk::MapKeyCaller7 | Tk::MapKeyCdl8 | Tk::NamespacedKeyCaller | Tk::NamespacedKeyCdl | Tk::PushHash7 | Tk::CallValue | Tk::Sload1 => (0, 1),
         Tk::ArrKey7Add => (1, 1),
         Tk::Mask => (1, 1),
         Tk::Add => (2, 1),
@@ -111,6 +117,14 @@ fn is_storage(t: Tk) -> bool {
     matches!(t, Tk::Sload1 | Tk::Sstore2 | Tk::Sstore | Tk::Sload)
 }
 
+/// bytes32("eternal.storage.balance.of"): ASCII text, left-aligned.
+fn namespace_word() -> U {
+    let mut b = [0u8; 32];
+    let t = b"eternal.storage.balance.of";
+    b[..t.len()].copy_from_slice(t);
+    U::from_hex(&hex(&b)).unwrap()
+}
+
 fn expand(seq: &[Tk]) -> Vec<u8> {
     let mut t: Vec<Tok> = Vec::new();
     for x in seq {
@@ -122,6 +136,13 @@ fn expand(seq: &[Tk]) -> Vec<u8> {
             Tk::MapKeyCdl8 => {
                 t.extend([p(0), o(op::CALLDATALOAD)]);
                 t.extend(mapkey_from_stack(U::from_u64(8)));
+            }
+            Tk::NamespacedKeyCaller => {
+                t.extend([pu(namespace_word()), p(0), o(op::MSTORE), o(op::CALLER), p(0x20), o(op::MSTORE), p(0x40), p(0), o(op::SHA3)]);
+            }
+            Tk::NamespacedKeyCdl => {
+                t.extend([p(0), o(op::CALLDATALOAD)]);
+                t.extend(mapkey_from_stack(namespace_word()));
             }
             Tk::ArrKey7Add => {
                 t.extend(arrkey(U::from_u64(7)));
@@ -421,7 +442,7 @@ impl Check for C05 {
             let live = seq.iter().position(|t| matches!(t, Tk::DeadJump | Tk::Byte5c | Tk::Byte5d | Tk::JumpIntoCutPush)).map_or(seq.len(), |i| i + 1);
             let storage_free = !seq[..live].iter().any(|t| is_storage(*t));
             let dead_storage = seq[live..].iter().any(|t| is_storage(*t));
-            let hashes = seq.iter().any(|t| matches!(t, Tk::MapKeyCaller7 | Tk::MapKeyCdl8 | Tk::ArrKey7Add | Tk::PushHash7));
+            let hashes = seq.iter().any(|t| matches!(t, Tk::MapKeyCaller7 | Tk::MapKeyCdl8 | Tk::NamespacedKeyCaller | Tk::NamespacedKeyCdl | Tk::ArrKey7Add | Tk::PushHash7));
             let odd_bytes = seq.iter().any(|t| matches!(t, Tk::Byte5c | Tk::Byte5d | Tk::JumpIntoCutPush));
             if !hashes && !dead_storage && !odd_bytes {
                 return true;
@@ -432,6 +453,10 @@ impl Check for C05 {
                 .filter(|t| matches!(t, Tk::StaticCallArg | Tk::DelegateCallArg | Tk::CallArg | Tk::CreateArg | Tk::RevertArg | Tk::HashAgain | Tk::Balance | Tk::IsZero | Tk::EqCaller | Tk::CondJump))
                 .count();
             if !tier.thorough() && seq.len() >= max_len(tier) && consumers > 1 {
+                return true;
+            }
+            // quick tier: the namespaced keys (text-like constant next to a symbolic word) in sequences one token shorter
+            if !tier.thorough() && seq.len() >= max_len(tier) && seq.iter().any(|t| matches!(t, Tk::NamespacedKeyCaller | Tk::NamespacedKeyCdl)) {
                 return true;
             }
             // programs without any look-alike hash are only interesting for their dead code: one token shorter
@@ -461,11 +486,11 @@ impl Check for C05 {
     }
     fn coverage(&self, tier: Tier, total: &Ctx) -> Map<String, Value> {
         let rule = format!(
-            "all stack-safe token sequences <= {} over 30 tokens that contain at least one look-alike hash computation or dead storage code: \
-             keccak(caller . 7), keccak(calldata . 8), keccak(7) + x, the literal keccak(7), a 160-bit mask, ADD, POP, DUP1, MSTORE, \
+            "all stack-safe token sequences <= {} over 32 tokens that contain at least one look-alike hash computation or dead storage code: \
+             keccak(caller . 7), keccak(calldata . 8), keccak(bytes32(\"eternal.storage.balance.of\") . caller) and keccak(calldata . that text word) (a key whose preimage is only partly constant; a mapping at a text-like slot constant), keccak(7) + x, the literal keccak(7), a 160-bit mask, ADD, POP, DUP1, MSTORE, \
              LOG1, RETURN, CALLVALUE, the value passed as the argument data of STATICCALL / DELEGATECALL / CALL, as CREATE init code, as \
              REVERT payload, hashed again, used as an address, zero-tested, compared, used as a branch condition, a JUMP beyond the code and the unassigned bytes 0x5c / 0x5d with load / store operands (everything behind them, storage instructions included, is dead), a jump into the partial data of a trailing PUSH10 that spells a store, and the real accesses SLOAD(1), SSTORE(2), SSTORE / SLOAD with the key taken from the stack. \
-             (Quick tier: sequences of the maximal length contain at most one consumer token, and sequences without a look-alike hash are one token shorter.) Programs whose live part (up to the first jump that cannot succeed) executes no storage instruction must yield an empty layout. For mixed programs every layout index must lie in the over-approximated \
+             (Quick tier: sequences of the maximal length contain at most one consumer token, and sequences without a look-alike hash, or with a text-word key, are one token shorter.) Programs whose live part (up to the first jump that cannot succeed) executes no storage instruction must yield an empty layout. For mixed programs every layout index must lie in the over-approximated \
              closure of the constants found in KEY sub-trees of the storage nodes of the execution result (constants, their keccak \
              pre-images below 10000, hashes of constant data, one constant addition). non-trivial = every such program (each contains a \
              look-alike hash); distinct by program. Second family: all stack-safe sequences <= {} over the {} mask-and-shift tokens of C12 \
